@@ -120,6 +120,9 @@ func claimFamily(m *Module) (claims, clears []*ssa.Function, accessor *ssa.Funct
 func newMergeFn(m *Module, fn *ssa.Function) *mergeFn {
 	mf := &mergeFn{m: m, fn: fn, plugin: map[*ssa.Parameter]bool{}, acc: map[*ssa.Parameter]bool{},
 		memo: map[ssa.Value]Tag{}, inprog: map[ssa.Value]bool{}}
+	if len(fn.Params) == 0 {
+		return mf
+	}
 	mf.recv = fn.Params[0]
 	// Parameters: the receiver is accumulated state.  A pointer parameter of the
 	// same type as another one that is *returned by getContainerUpdate* is the
